@@ -43,7 +43,7 @@ pub static BMT: EngineDef = EngineDef {
 fn smt_describe(prop: &str) -> EngineDescription {
     let (rule, measure) = match prop {
         "C12" => (
-            "Seeded histories (2–32 ops) of insert (new / overwrite same / overwrite different / empty value) and delete (present / absent / twice) over a pool of 2–12 adversarially clustered keys (shared prefixes of 0–255 bits, last-bit siblings, all-zero, all-one, hashed), on sparse::MerkleTree over SimKV and sparse::in_memory::MerkleTree; store I/O errors inside operations (rollback to the pre-operation snapshot, reload, retry). After every op the root is compared with the compact-SMT reference over the model map; from_set / root_from_set / nodes_from_set / storage from_set over the shuffled map (with duplicates) are compared at seeded points and at the end. Non-trivial: at least one delete that orphans a leaf (collapse) and a key pair with a common prefix ≥ 64 bits; distinct = distinct digests of (step, root) sequences.",
+            "Seeded histories (2–32 ops) of insert (new / overwrite same / overwrite different / empty value) and delete (present / absent / twice) over a pool of 2–12 adversarially clustered keys (shared prefixes of 0–255 bits, last-bit siblings, all-zero, all-one, hashed), on sparse::MerkleTree over SimKV and sparse::in_memory::MerkleTree; store I/O errors inside operations (rollback to the pre-operation snapshot, reload, retry). After every op the root is compared with the compact-SMT reference over the model map; from_set / root_from_set / nodes_from_set / storage from_set over the shuffled map (with duplicates; a third of the sets carries 1–60 stale pairs that precede the final pair of their key — from_set is documented as equivalent to sequential updates, so the last pair wins) are compared at seeded points and at the end. Non-trivial: at least one delete that orphans a leaf (collapse) and a key pair with a common prefix ≥ 64 bits; distinct = distinct digests of (step, root) sequences.",
             "distinct (step, root) event digests of non-trivial runs",
         ),
         "C13" => (
